@@ -4,6 +4,7 @@
 -/
 import EpsModel.Iter
 import EpsModel.Lemmas.Basic
+import EpsModel.Hash
 namespace Eps
 
 mutual
@@ -58,6 +59,248 @@ theorem Variants.maxSize_vecify : ∀ v : Variants, v.vecify.maxSize = v.maxSize
   | .cons _ fs r => by
       simp only [Variants.vecify, Variants.maxSize]
       rw [Fields.endOffset_vecify fs 0, Fields.maxAlign_vecify fs, Variants.maxSize_vecify r]
+end
+
+
+mutual
+theorem Ty.isZC_vecify : ∀ t : Ty, t.vecify.isZC = t.isZC
+  | .prim _ | .string | .boxStr | .rangeFull => by simp [Ty.vecify]
+  | .phantom _ | .vec _ | .boxSlice _ | .sliceRef _ | .serIter _ | .option _ | .bound _ | .controlFlow _ _ => by
+      simp [Ty.vecify, Ty.isZC]
+  | .array t _ => by simp only [Ty.vecify, Ty.isZC]; exact Ty.isZC_vecify t
+  | .tuple t _ => by simp only [Ty.vecify, Ty.isZC]; rw [Ty.isZC_vecify t]
+  | .range k t => by cases k <;> simp only [Ty.vecify, Ty.isZC] <;> exact Ty.isZC_vecify t
+  | .adt m vs => by simp only [Ty.vecify, Ty.isZC]; rw [Variants.allZC_vecify vs]
+theorem Fields.allZC_vecify : ∀ f : Fields, f.vecify.allZC = f.allZC
+  | .nil => by simp [Fields.vecify]
+  | .cons _ _ t r => by simp only [Fields.vecify, Fields.allZC]; rw [Ty.isZC_vecify t, Fields.allZC_vecify r]
+theorem Variants.allZC_vecify : ∀ v : Variants, v.vecify.allZC = v.allZC
+  | .nil => by simp [Variants.vecify]
+  | .cons _ fs r => by simp only [Variants.vecify, Variants.allZC]; rw [Fields.allZC_vecify fs, Variants.allZC_vecify r]
+end
+
+mutual
+theorem Ty.maxSizeOf_vecify : ∀ t : Ty, t.vecify.maxSizeOf = t.maxSizeOf
+  | .prim _ | .string | .boxStr | .rangeFull => by simp [Ty.vecify]
+  | .phantom _ | .vec _ | .boxSlice _ | .sliceRef _ | .serIter _ | .option _ | .bound _ | .controlFlow _ _ => by
+      simp [Ty.vecify, Ty.maxSizeOf]
+  | .array t _ => by simp only [Ty.vecify, Ty.maxSizeOf]; exact Ty.maxSizeOf_vecify t
+  | .tuple t _ => by simp only [Ty.vecify, Ty.maxSizeOf]; exact Ty.maxSizeOf_vecify t
+  | .range k t => by
+      have := Ty.sizeOf_vecify (.range k t)
+      simp only [Ty.vecify] at this
+      simp only [Ty.vecify, Ty.maxSizeOf]; exact this
+  | .adt m vs => by
+      have := Ty.alignOf_vecify (.adt m vs)
+      simp only [Ty.vecify] at this
+      simp only [Ty.vecify, Ty.maxSizeOf]; rw [this, Variants.maxUnit_vecify vs]
+theorem Fields.maxUnit_vecify : ∀ f : Fields, f.vecify.maxUnit = f.maxUnit
+  | .nil => by simp [Fields.vecify]
+  | .cons _ _ t r => by simp only [Fields.vecify, Fields.maxUnit]; rw [Ty.maxSizeOf_vecify t, Fields.maxUnit_vecify r]
+theorem Variants.maxUnit_vecify : ∀ v : Variants, v.vecify.maxUnit = v.maxUnit
+  | .nil => by simp [Variants.vecify]
+  | .cons _ fs r => by simp only [Variants.vecify, Variants.maxUnit]; rw [Fields.maxUnit_vecify fs, Variants.maxUnit_vecify r]
+end
+
+mutual
+theorem Ty.toMem_vecify : ∀ (t : Ty) (v : Val), t.vecify.toMem v = t.toMem v
+  | .prim _, v | .string, v | .boxStr, v | .rangeFull, v => by simp [Ty.vecify]
+  | .phantom _, v | .vec _, v | .boxSlice _, v | .sliceRef _, v | .serIter _, v | .option _, v | .bound _, v | .controlFlow _ _, v => by
+      cases v <;> simp [Ty.vecify, Ty.toMem]
+  | .array t _, v => by cases v <;> simp [Ty.vecify, Ty.toMem, Ty.toMemList_vecify t]
+  | .tuple t _, v => by cases v <;> simp [Ty.vecify, Ty.toMem, Ty.toMemList_vecify t]
+  | .range k t, v => by
+      cases k <;> cases v <;> simp only [Ty.vecify, Ty.toMem]
+      all_goals
+        rename_i fs
+        match fs with
+        | [a] => simp only [Ty.toMem, Ty.toMem_vecify t a]
+        | [] => simp [Ty.toMem]
+        | _ :: _ :: _ => simp [Ty.toMem]
+  | .adt m vs, v => by
+      have hs := Ty.sizeOf_vecify (.adt m vs)
+      simp only [Ty.vecify] at hs
+      cases v with
+      | record fs =>
+        cases vs with
+        | nil => simp [Ty.vecify, Variants.vecify, Ty.toMem]
+        | cons n f r =>
+          cases r with
+          | nil =>
+            simp only [Ty.vecify, Variants.vecify] at hs ⊢
+            simp only [Ty.toMem, hs, Fields.toMem_vecify f fs 0]
+          | cons n' f' r' => simp [Ty.vecify, Variants.vecify, Ty.toMem]
+      | variant i fs =>
+        simp only [Ty.vecify, Ty.toMem, hs, Variants.maxAlign_vecify, Variants.toMem_vecify vs i fs]
+      | _ => simp [Ty.vecify, Ty.toMem]
+theorem Ty.toMemList_vecify : ∀ (t : Ty) (vs : List Val), Ty.toMemList t.vecify vs = Ty.toMemList t vs
+  | _, [] => by simp [Ty.toMemList]
+  | t, v :: vs => by simp only [Ty.toMemList]; rw [Ty.toMem_vecify t v, Ty.toMemList_vecify t vs]
+theorem Fields.toMem_vecify : ∀ (f : Fields) (vs : List Val) (o : Nat), f.vecify.toMem vs o = f.toMem vs o
+  | .nil, vs, o => by simp [Fields.vecify, Fields.toMem]
+  | .cons _ _ t r, [], o => by simp [Fields.vecify, Fields.toMem]
+  | .cons _ _ t r, v :: vs, o => by
+      simp only [Fields.vecify, Fields.toMem]
+      rw [Ty.alignOf_vecify t, Ty.sizeOf_vecify t, Ty.toMem_vecify t v, Fields.toMem_vecify r vs]
+theorem Variants.toMem_vecify : ∀ (vs : Variants) (i : Nat) (fs : List Val), vs.vecify.toMem i fs = vs.toMem i fs
+  | .nil, _, _ => by simp [Variants.vecify, Variants.toMem]
+  | .cons _ f _, 0, fs => by simp only [Variants.vecify, Variants.toMem]; exact Fields.toMem_vecify f fs 0
+  | .cons _ _ r, i+1, fs => by simp only [Variants.vecify, Variants.toMem]; exact Variants.toMem_vecify r i fs
+end
+
+
+mutual
+/-- **No byte changes**: a value serialized at a type in which slice references / iterator wrappers
+    occur anywhere (under vectors, options, arrays, as fields of derived structures and enums, at any
+    depth) is written exactly as at the type with vectors in their place. -/
+theorem Ty.enc_vecify : ∀ (t : Ty) (v : Val) (pos : Nat), t.vecify.enc v pos = t.enc v pos
+  | .prim _, v, pos | .string, v, pos | .boxStr, v, pos | .rangeFull, v, pos => by simp [Ty.vecify]
+  | .phantom _, v, pos => by cases v <;> simp [Ty.vecify, Ty.enc]
+  | .vec t, v, pos => by cases v <;> simp [Ty.vecify, Ty.enc, Ty.encSeq_vecify t]
+  | .boxSlice t, v, pos => by cases v <;> simp [Ty.vecify, Ty.enc, Ty.encSeq_vecify t]
+  | .sliceRef t, v, pos => by cases v <;> simp [Ty.vecify, Ty.enc, Ty.encSeq_vecify t]
+  | .serIter t, v, pos => by cases v <;> simp [Ty.vecify, Ty.enc, Ty.encSeq_vecify t]
+  | .array t n, v, pos => by
+      cases v <;> simp [Ty.vecify, Ty.enc, Ty.isZC_vecify t, Ty.maxSizeOf_vecify t, Ty.toMemList_vecify t, Ty.encList_vecify t]
+  | .tuple t n, v, pos => by
+      cases v <;> simp [Ty.vecify, Ty.enc, Ty.maxSizeOf_vecify t, Ty.toMemList_vecify t]
+  | .option t, v, pos => by
+      cases v with
+      | variant i fs =>
+        match i, fs with
+        | 0, [] => simp [Ty.vecify, Ty.enc]
+        | 1, [x] => simp [Ty.vecify, Ty.enc, Ty.enc_vecify t x]
+        | 0, _ :: _ => simp [Ty.vecify, Ty.enc]
+        | 1, [] => simp [Ty.vecify, Ty.enc]
+        | 1, _ :: _ :: _ => simp [Ty.vecify, Ty.enc]
+        | _+2, _ => simp [Ty.vecify, Ty.enc]
+      | _ => simp [Ty.vecify, Ty.enc]
+  | .bound t, v, pos => by
+      cases v with
+      | variant i fs =>
+        match i, fs with
+        | 0, [] => simp [Ty.vecify, Ty.enc]
+        | 1, [x] => simp [Ty.vecify, Ty.enc, Ty.enc_vecify t x]
+        | 2, [x] => simp [Ty.vecify, Ty.enc, Ty.enc_vecify t x]
+        | 0, _ :: _ => simp [Ty.vecify, Ty.enc]
+        | 1, [] => simp [Ty.vecify, Ty.enc]
+        | 1, _ :: _ :: _ => simp [Ty.vecify, Ty.enc]
+        | 2, [] => simp [Ty.vecify, Ty.enc]
+        | 2, _ :: _ :: _ => simp [Ty.vecify, Ty.enc]
+        | _+3, _ => simp [Ty.vecify, Ty.enc]
+      | _ => simp [Ty.vecify, Ty.enc]
+  | .controlFlow b c, v, pos => by
+      cases v with
+      | variant i fs =>
+        match i, fs with
+        | 0, [x] => simp [Ty.vecify, Ty.enc, Ty.enc_vecify b x]
+        | 1, [x] => simp [Ty.vecify, Ty.enc, Ty.enc_vecify c x]
+        | 0, [] => simp [Ty.vecify, Ty.enc]
+        | 0, _ :: _ :: _ => simp [Ty.vecify, Ty.enc]
+        | 1, [] => simp [Ty.vecify, Ty.enc]
+        | 1, _ :: _ :: _ => simp [Ty.vecify, Ty.enc]
+        | _+2, _ => simp [Ty.vecify, Ty.enc]
+      | _ => simp [Ty.vecify, Ty.enc]
+  | .range k t, v, pos => by
+      cases v with
+      | record fs =>
+        cases k <;>
+        (match fs with
+         | [] => simp [Ty.vecify, Ty.enc]
+         | [a] => simp [Ty.vecify, Ty.enc, Ty.enc_vecify t a]
+         | [a, b] => simp [Ty.vecify, Ty.enc, Ty.enc_vecify t a, Ty.enc_vecify t b]
+         | _ :: _ :: _ :: _ => simp [Ty.vecify, Ty.enc])
+      | _ => cases k <;> simp [Ty.vecify, Ty.enc]
+  | .adt m vs, v, pos => by
+      have hm := Ty.maxSizeOf_vecify (.adt m vs)
+      have ht := Ty.toMem_vecify (.adt m vs) v
+      simp only [Ty.vecify] at hm ht
+      cases v with
+      | record fs =>
+        cases vs with
+        | nil => simp only [Ty.vecify, Variants.vecify, Ty.enc] at hm ht ⊢; (try rw [hm, ht])
+        | cons n f r =>
+          cases r with
+          | nil =>
+            simp only [Ty.vecify, Variants.vecify, Ty.enc] at hm ht ⊢
+            rw [hm, ht, Fields.enc_vecify f fs pos]
+          | cons n' f' r' =>
+            simp only [Ty.vecify, Variants.vecify, Ty.enc] at hm ht ⊢; rw [hm, ht]
+      | variant i fs =>
+        simp only [Ty.vecify, Ty.enc] at hm ht ⊢
+        rw [hm, ht, Variants.enc_vecify vs i fs (pos + 8)]
+      | _ => simp [Ty.vecify, Ty.enc]
+theorem Ty.encSeq_vecify : ∀ (t : Ty) (vs : List Val) (pos : Nat), Ty.encSeq t.vecify vs pos = Ty.encSeq t vs pos
+  | t, vs, pos => by
+      simp only [Ty.encSeq, Ty.isZC_vecify t, Ty.maxSizeOf_vecify t, Ty.toMemList_vecify t, Ty.encList_vecify t]
+theorem Ty.encList_vecify : ∀ (t : Ty) (vs : List Val) (pos : Nat), Ty.encList t.vecify vs pos = Ty.encList t vs pos
+  | _, [], _ => by simp [Ty.encList]
+  | t, v :: vs, pos => by
+      simp only [Ty.encList]
+      rw [Ty.enc_vecify t v pos, Ty.encList_vecify t vs]
+theorem Fields.enc_vecify : ∀ (f : Fields) (vs : List Val) (pos : Nat), f.vecify.enc vs pos = f.enc vs pos
+  | .nil, vs, pos => by simp [Fields.vecify, Fields.enc]
+  | .cons _ _ t r, [], pos => by simp [Fields.vecify, Fields.enc]
+  | .cons _ _ t r, v :: vs, pos => by
+      simp only [Fields.vecify, Fields.enc]
+      rw [Ty.enc_vecify t v pos, Fields.enc_vecify r vs]
+theorem Variants.enc_vecify : ∀ (vs : Variants) (i : Nat) (fs : List Val) (pos : Nat), vs.vecify.enc i fs pos = vs.enc i fs pos
+  | .nil, _, _, _ => by simp [Variants.vecify, Variants.enc]
+  | .cons _ f _, 0, fs, pos => by simp only [Variants.vecify, Variants.enc]; exact Fields.enc_vecify f fs pos
+  | .cons _ _ r, i+1, fs, pos => by simp only [Variants.vecify, Variants.enc]; exact Variants.enc_vecify r i fs pos
+end
+
+
+theorem alignFeedRep_vecify_of (t : Ty) (h : ∀ off, t.vecify.alignFeed off = t.alignFeed off) :
+    ∀ (n off : Nat), Ty.alignFeedRep t.vecify n off = Ty.alignFeedRep t n off
+  | 0, _ => by simp [Ty.alignFeedRep]
+  | n+1, off => by simp only [Ty.alignFeedRep, h off, alignFeedRep_vecify_of t h n]
+
+mutual
+theorem Ty.alignFeed_vecify : ∀ (t : Ty) (off : Nat), t.vecify.alignFeed off = t.alignFeed off
+  | .prim _, off | .string, off | .boxStr, off | .rangeFull, off => by simp [Ty.vecify]
+  | .phantom _, off | .bound _, off => by simp [Ty.vecify, Ty.alignFeed]
+  | .vec t, off | .boxSlice t, off | .sliceRef t, off | .serIter t, off | .option t, off => by
+      simp only [Ty.vecify, Ty.alignFeed, Ty.alignFeed_vecify t 0]
+  | .array t n, off => by
+      simp only [Ty.vecify, Ty.alignFeed, Ty.alignFeed_vecify t off, Ty.sizeOf_vecify t]
+  | .tuple t n, off => by simp only [Ty.vecify, Ty.alignFeed]; exact alignFeedRep_vecify_of t (Ty.alignFeed_vecify t) n off
+  | .controlFlow b c, off => by
+      simp only [Ty.vecify, Ty.alignFeed, Ty.alignFeed_vecify b 0, Ty.alignFeed_vecify c 0]
+  | .range _ t, off => by
+      simp only [Ty.vecify, Ty.alignFeed, Ty.alignOf_vecify t, Ty.sizeOf_vecify t]
+  | .adt m vs, off => by
+      have hs := Ty.sizeOf_vecify (.adt m vs)
+      simp only [Ty.vecify] at hs
+      cases vs with
+      | nil => simp only [Ty.vecify, Variants.vecify, Ty.alignFeed] at hs ⊢; (try simp only [hs, Variants.alignFeedZero, Variants.alignFeedDeep])
+      | cons n f r =>
+        cases r with
+        | nil =>
+          simp only [Ty.vecify, Variants.vecify, Ty.alignFeed] at hs ⊢
+          simp only [hs, Variants.alignFeedZero, Variants.alignFeedDeep, Fields.alignFeed_vecify, Fields.alignFeedDeep_vecify]
+        | cons n' f' r' =>
+          have h1 := Variants.alignFeedZero_vecify (.cons n f (.cons n' f' r')) off off
+          have h2 := Variants.alignFeedDeep_vecify (.cons n f (.cons n' f' r')) off
+          simp only [Variants.vecify] at h1 h2
+          simp only [Ty.vecify, Variants.vecify, Ty.alignFeed] at hs ⊢
+          simp only [hs, h1, h2]
+theorem Fields.alignFeed_vecify : ∀ (f : Fields) (off : Nat), f.vecify.alignFeed off = f.alignFeed off
+  | .nil, _ => by simp [Fields.vecify, Fields.alignFeed]
+  | .cons _ _ t r, off => by
+      simp only [Fields.vecify, Fields.alignFeed, Ty.alignFeed_vecify t off, Fields.alignFeed_vecify r]
+theorem Fields.alignFeedDeep_vecify : ∀ (f : Fields), f.vecify.alignFeedDeep = f.alignFeedDeep
+  | .nil => by simp [Fields.vecify, Fields.alignFeedDeep]
+  | .cons _ _ t r => by
+      simp only [Fields.vecify, Fields.alignFeedDeep, Ty.alignFeed_vecify t 0, Fields.alignFeedDeep_vecify r]
+theorem Variants.alignFeedZero_vecify : ∀ (v : Variants) (old cur : Nat), v.vecify.alignFeedZero old cur = v.alignFeedZero old cur
+  | .nil, _, _ => by simp [Variants.vecify, Variants.alignFeedZero]
+  | .cons _ fs r, old, _ => by
+      simp only [Variants.vecify, Variants.alignFeedZero, Fields.alignFeed_vecify fs old, Variants.alignFeedZero_vecify r]
+theorem Variants.alignFeedDeep_vecify : ∀ (v : Variants) (cur : Nat), v.vecify.alignFeedDeep cur = v.alignFeedDeep cur
+  | .nil, _ => by simp [Variants.vecify, Variants.alignFeedDeep]
+  | .cons _ fs r, _ => by
+      simp only [Variants.vecify, Variants.alignFeedDeep, Fields.alignFeed_vecify fs 0, Variants.alignFeedDeep_vecify r]
 end
 
 end Eps
